@@ -721,6 +721,21 @@ class QueryObjectDescriptor(CanBehaveLikeAVariable[T], ABC):
                 else:
                     yield v
 
+    def _evaluate_selected_(self, var: CanBehaveLikeAVariable, bindings: Dict[int, HashedValue],
+                            yield_when_false: bool = False) -> List[Dict[int, HashedValue]]:
+        """
+        The bindings of a selected expression under the given row. What is selected is a value, also when the same
+        expression object stands in condition position somewhere in the condition (where it was false under this row and
+        another side of a disjunction was true): it is evaluated as the selection of this descriptor, and handed back as
+        it was found before the conditions go on.
+        """
+        previous_parent = var._eval_parent_
+        var._eval_parent_ = self
+        try:
+            return list(var._evaluate__(bindings, yield_when_false=yield_when_false))
+        finally:
+            var._eval_parent_ = previous_parent
+
     def _bind_selected_variables_(self, bindings: Dict[int, HashedValue],
                                   selected_vars: List[CanBehaveLikeAVariable]) -> Iterable[Dict[int, HashedValue]]:
         """
@@ -733,7 +748,7 @@ class QueryObjectDescriptor(CanBehaveLikeAVariable[T], ABC):
         var, remaining_vars = selected_vars[0], selected_vars[1:]
         if _takes_its_value_from_a_non_solution_(var, bindings):
             return
-        for var_bindings in var._evaluate__(copy(bindings)):
+        for var_bindings in self._evaluate_selected_(var, copy(bindings)):
             new_bindings = copy(var_bindings)
             new_bindings.update(bindings)
             new_bindings[var._id_] = var_bindings[var._id_]
@@ -804,7 +819,7 @@ class SetOf(QueryObjectDescriptor[T]):
         for sol in sol_gen:
             sol.update(sources)
             if self.selected_variables:
-                var_val = {var._id_: next(var._evaluate__(sol, yield_when_false=self._yield_when_false_))[var._id_]
+                var_val = {var._id_: self._evaluate_selected_(var, sol, self._yield_when_false_)[0][var._id_]
                            for var in self.selected_variables if var._id_ in sol}
                 sol.update(var_val)
                 yield sol
@@ -834,7 +849,7 @@ class Entity(QueryObjectDescriptor[T]):
             sol.update(sources)
             if self._yield_when_false_ or not self._is_false_:
                 if self.selected_variable:
-                    for var_val in self.selected_variable._evaluate__(sol):
+                    for var_val in self._evaluate_selected_(self.selected_variable, sol):
                         var_val.update(sol)
                         yield var_val
                 else:
